@@ -71,17 +71,26 @@ FUNCS4 = [
     (F, None, None, "concat", "concat", None),
     (F, None, None, "delete_jsonb_by_name", "delete_jsonb_by_name", None),
     (F, None, None, "array_insert_jsonb", "array_insert_jsonb", None),
-    (F, None, None, "object_insert_jsonb", "object_insert_jsonb", None),
     (F, None, None, "object_delete_jsonb", "object_delete_jsonb", None),
     (F, None, None, "object_pick_jsonb", "object_pick_jsonb", None),
-    (F, None, None, "array_distinct_jsonb", "array_distinct_jsonb", None),
-    (F, None, None, "array_intersection_jsonb", "array_intersection_jsonb", None),
-    (F, None, None, "array_except_jsonb", "array_except_jsonb", None),
-    (F, None, None, "array_overlap_jsonb", "array_overlap_jsonb", None),
 ]
-if os.environ.get("RS2LEAN4_ONLY"):
-    _only = set(os.environ["RS2LEAN4_ONLY"].split(","))
-    FUNCS4 = [f for f in FUNCS4 if f[4] in _only or f[0] == B]
+
+# translated and elaborated on request only (RS2LEAN4_EXTRA=object_insert,sets): these translate, their agreement
+# with Functions/Edit.lean is not proved yet (see tools/RS2LEAN.md), so they are not part of the default output
+EXTRA4 = {
+    "object_insert": [
+        (F, None, None, "object_insert_jsonb", "object_insert_jsonb", None),
+    ],
+    "sets": [
+        (F, None, None, "array_distinct_jsonb", "array_distinct_jsonb", None),
+        (F, None, None, "array_intersection_jsonb", "array_intersection_jsonb", None),
+        (F, None, None, "array_except_jsonb", "array_except_jsonb", None),
+        (F, None, None, "array_overlap_jsonb", "array_overlap_jsonb", None),
+    ],
+}
+for _x in os.environ.get("RS2LEAN4_EXTRA", "").split(","):
+    if _x in EXTRA4:
+        FUNCS4 = FUNCS4 + EXTRA4[_x]
 
 # public functions of the shape `if <sniff> { <text branch; returns> } <jsonb helper>(..)`: the text
 # branch calls the JSON text parser and is kept as a parameter `text__` holding its result
@@ -772,6 +781,12 @@ class FnTr4(FnTr3):
                 rl, b, _ = self.ex(e.r, STR)
                 rel = {"<": "= Ordering.lt", ">": "= Ordering.gt", "<=": "≠ Ordering.gt", ">=": "≠ Ordering.lt"}[e.op]
                 return ll + rl, "(decide (Rs.cmpBytes %s %s %s))" % (self.atom(a), self.atom(b), rel), ("bool",)
+        if e.op in ("==", "!="):
+            lt_, rt_ = self.peek_type(e.l), self.peek_type(e.r)
+            if lt_ == STR and rt_ == STR:
+                ll, a, _ = self.ex(e.l, STR)
+                rl, b, _ = self.ex(e.r, STR)
+                return ll + rl, "(decide (%s %s %s))" % (self.atom(a), "=" if e.op == "==" else "≠", self.atom(b)), ("bool",)
         return FnTr3.ex_bin(self, e, want)
 
     def ex_call(self, e, want):
@@ -1052,10 +1067,10 @@ class FnTr4(FnTr3):
         return N("block", stmts=[s0] + body.stmts[1:], tail=body.tail)
 
     def is_sniff(self, c):
-        """`!is_jsonb(x)` or a `||` of such tests"""
+        """`!is_jsonb(x)` or a `||` / `&&` of such tests (the test itself is translated)"""
         while c.kind == "paren":
             c = c.e
-        if c.kind == "bin" and c.op == "||":
+        if c.kind == "bin" and c.op in ("||", "&&"):
             return self.is_sniff(c.l) and self.is_sniff(c.r)
         return (c.kind == "un" and c.op == "!" and c.e.kind == "call" and c.e.f.kind == "path"
                 and c.e.f.segs == ["is_jsonb"] and len(c.e.args) == 1)
